@@ -104,6 +104,20 @@ def compositions(max_len, total_dims, covs=(0,)):
     return out
 
 
+def extra_quick():
+    """compositions the <= 2-unit / total-dimension-2 enumeration cannot
+    reach: multi-dimensional special sub-models in front of regular ones and
+    covariate models with 2 covariates on >= 2 selected parameters"""
+    U = hier.unit
+    return [[U('pooled', 2), U('gaussian')], [U('hetero', 2),
+                                              U('lognormal_nc')],
+            [U('gaussian'), U('pooled', 2)], [U('pooled', 2),
+                                              U('gaussian_nc')],
+            [U('gaussian', 1, 2), U('pooled')],
+            [U('lognormal_nc', 1, 2), U('gaussian')],
+            [U('gaussian', 2, 2)], [U('pooled', 1, 2), U('truncgauss')]]
+
+
 def jobs(tier):
     out = []
     if tier == 'quick':
@@ -133,6 +147,8 @@ def jobs(tier):
     for c in cov_comps:
         for n_ids in id_list[-2:]:
             out.append(('hier', 'case_hier', dict(units=c, n_ids=n_ids), {}))
+    for c in extra_quick():
+        out.append(('hier', 'case_hier', dict(units=c, n_ids=2), {}))
     # fixed population parameters
     fix_comps = comps[::5] if tier == 'quick' else comps[::2]
     for j, c in enumerate(fix_comps):
